@@ -142,9 +142,143 @@ pub fn cases_c17(rng: &mut Rng, thorough: bool) -> Vec<GenCase> {
     v
 }
 
+// ------------------------------------------------------------------ spherical layer
+
+use a5::coordinate_systems::{LonLat, Radians, Spherical};
+use a5::core::coordinate_transforms::{from_lon_lat, to_lon_lat};
+use a5::core::origin::{find_nearest_origin, get_origins, haversine};
+use a5::projections::authalic::AuthalicProjection;
+
+const TOL43: &str = "(1, (-43))"; // 1.1e-13
+const TOL36: &str = "(1, (-36))"; // 1.5e-11 (degrees)
+
+pub fn latitude_sample(rng: &mut Rng) -> f64 {
+    let h = std::f64::consts::FRAC_PI_2;
+    match rng.below(8) {
+        0 => h,
+        1 => -h,
+        2 => 0.0,
+        3 => h - rng.unit() * 1e-6,
+        4 => -h + rng.unit() * 1e-9,
+        5 => (rng.unit() - 0.5) * 1e-8,
+        _ => (2.0 * rng.unit() - 1.0) * h,
+    }
+}
+
+pub fn cases_c19(rng: &mut Rng, thorough: bool) -> Vec<GenCase> {
+    let mut v = Vec::new();
+    let a = AuthalicProjection;
+    let n = if thorough { 6000 } else { 800 };
+    let grid = if thorough { 2000 } else { 300 };
+    let mut lats: Vec<f64> = (0..=grid).map(|k| -std::f64::consts::FRAC_PI_2 + std::f64::consts::PI * (k as f64) / grid as f64).collect();
+    for _ in 0..n {
+        lats.push(latitude_sample(rng));
+    }
+    for x in lats {
+        let x = x.clamp(-std::f64::consts::FRAC_PI_2, std::f64::consts::FRAC_PI_2);
+        let f = a.forward(Radians::new_unchecked(x)).get();
+        let i = a.inverse(Radians::new_unchecked(x)).get();
+        v.push(GenCase { coq: format!("GAuthFwd {} {} {}", dy(x), dy(f), TOL43), desc: format!("authalic.forward({:e}) -> {:e}", x, f), kind: "authalic_forward".into() });
+        v.push(GenCase { coq: format!("GAuthInv {} {} {}", dy(x), dy(i), TOL43), desc: format!("authalic.inverse({:e}) -> {:e}", x, i), kind: "authalic_inverse".into() });
+    }
+    for _ in 0..n {
+        let lon = match rng.below(6) {
+            0 => 180.0,
+            1 => -180.0,
+            2 => 179.999999 + rng.unit() * 2e-6,
+            _ => 1080.0 * rng.unit() - 540.0,
+        };
+        let lat = match rng.below(6) {
+            0 => 90.0,
+            1 => -90.0,
+            2 => 90.0 - rng.unit() * 1e-7,
+            _ => 180.0 * rng.unit() - 90.0,
+        };
+        let sp = from_lon_lat(LonLat::new(lon, lat));
+        v.push(GenCase {
+            coq: format!("GFromLonLat {} {} {} {} {}", dy(lon), dy(lat), dy(sp.theta().get()), dy(sp.phi().get()), TOL43),
+            desc: format!("from_lon_lat({}, {}) -> theta {:e} phi {:e}", lon, lat, sp.theta().get(), sp.phi().get()),
+            kind: "from_lon_lat".into(),
+        });
+        let th = sp.theta().get();
+        let ph = sp.phi().get();
+        let ll = to_lon_lat(Spherical::new(Radians::new_unchecked(th), Radians::new_unchecked(ph)));
+        v.push(GenCase {
+            coq: format!("GToLonLat {} {} {} {} {}", dy(th), dy(ph), dy(ll.longitude()), dy(ll.latitude()), TOL36),
+            desc: format!("to_lon_lat(theta {:e}, phi {:e}) -> ({}, {})", th, ph, ll.longitude(), ll.latitude()),
+            kind: "to_lon_lat".into(),
+        });
+    }
+    v
+}
+
+pub fn sphere_point(rng: &mut Rng) -> (f64, f64) {
+    // (theta, phi) uniform on the sphere
+    let z: f64 = 2.0 * rng.unit() - 1.0;
+    (std::f64::consts::TAU * rng.unit() - std::f64::consts::PI, z.acos())
+}
+
+/// a point close to the seam (bisector plane) between two neighbouring face centres
+pub fn seam_point(rng: &mut Rng, eps: f64) -> (f64, f64) {
+    let origins = get_origins();
+    let cart = |t: f64, p: f64| [p.sin() * t.cos(), p.sin() * t.sin(), p.cos()];
+    loop {
+        let i = rng.below(12) as usize;
+        let j = rng.below(12) as usize;
+        let a = cart(origins[i].axis.theta().get(), origins[i].axis.phi().get());
+        let b = cart(origins[j].axis.theta().get(), origins[j].axis.phi().get());
+        let d: f64 = a[0] * b[0] + a[1] * b[1] + a[2] * b[2];
+        if i == j || d < 0.4 {
+            continue;
+        }
+        // point on the bisector: m + t * (a x b), pushed towards a by eps
+        let m = [a[0] + b[0], a[1] + b[1], a[2] + b[2]];
+        let c = [a[1] * b[2] - a[2] * b[1], a[2] * b[0] - a[0] * b[2], a[0] * b[1] - a[1] * b[0]];
+        let t = (rng.unit() - 0.5) * 1.2;
+        let s = if rng.chance(1, 2) { eps } else { -eps };
+        let p = [m[0] + t * c[0] + s * (a[0] - b[0]), m[1] + t * c[1] + s * (a[1] - b[1]), m[2] + t * c[2] + s * (a[2] - b[2])];
+        let r = (p[0] * p[0] + p[1] * p[1] + p[2] * p[2]).sqrt();
+        return (p[1].atan2(p[0]), (p[2] / r).acos());
+    }
+}
+
+pub fn cases_c18(rng: &mut Rng, thorough: bool) -> Vec<GenCase> {
+    let mut v = Vec::new();
+    let n = if thorough { 6000 } else { 900 };
+    for k in 0..n {
+        let (t, p) = match k % 3 {
+            0 => sphere_point(rng),
+            1 => {
+                let e = 10f64.powi(-(rng.range_i(2, 9) as i32));
+                seam_point(rng, e)
+            }
+            _ => {
+                // near a face centre or exactly on it
+                let o = &get_origins()[rng.below(12) as usize];
+                (o.axis.theta().get() + (rng.unit() - 0.5) * 1e-3, (o.axis.phi().get() + (rng.unit() - 0.5) * 1e-3).abs())
+            }
+        };
+        let sp = Spherical::new(Radians::new_unchecked(t), Radians::new_unchecked(p));
+        let o = find_nearest_origin(sp);
+        v.push(GenCase { coq: format!("GNearest {} {} {}", dy(t), dy(p), o.id), desc: format!("find_nearest_origin(theta {:e}, phi {:e}) -> {}", t, p, o.id), kind: "find_nearest_origin".into() });
+        if k % 4 == 0 {
+            let ax = &get_origins()[rng.below(12) as usize].axis;
+            let h = haversine(sp, *ax);
+            v.push(GenCase {
+                coq: format!("GHaversine {} {} {} {} {} {}", dy(t), dy(p), dy(ax.theta().get()), dy(ax.phi().get()), dy(h), TOL43),
+                desc: format!("haversine(({:e},{:e}), axis) -> {:e}", t, p, h),
+                kind: "haversine".into(),
+            });
+        }
+    }
+    v
+}
+
 pub fn cases_for(prop: &str, rng: &mut Rng, thorough: bool) -> Option<(Vec<GenCase>, &'static str)> {
     Some(match prop {
         "C17" => (cases_c17(rng, thorough), "Corr.HilbertCases"),
+        "C19" => (cases_c19(rng, thorough), "Corr.GeoCases"),
+        "C18" => (cases_c18(rng, thorough), "Corr.GeoCases"),
         _ => return None,
     })
 }
